@@ -17,13 +17,13 @@ def port_policy(caller, callee, depth):
 
 def check(ctx):
     M = ctx.M
-    s1_ownership(ctx)
-    s2_deltas(ctx)
-    s3_transfers(ctx)
-    s4_one_debit_per_fill(ctx)
-    s5_history(ctx)
-    s6_aggregates(ctx)
-    s3b_refused_movements(ctx)
+    ctx.sub(s1_ownership)
+    ctx.sub(s2_deltas)
+    ctx.sub(s3_transfers)
+    ctx.sub(s4_one_debit_per_fill)
+    ctx.sub(s5_history)
+    ctx.sub(s6_aggregates)
+    ctx.sub(s3b_refused_movements)
     refl = reflection_sites(M)
     ctx.require(not [r for r in refl if r[2] in ('setattr', 'delattr', 'exec', 'eval', '__dict__', '__setattr__', 'vars', 'globals')],
                 'C01.closed-world', 'no reflection in the package', refl[0][0].site(refl[0][1]) if refl else None,
@@ -315,7 +315,7 @@ def s6_aggregates(ctx):
     for qn, getter, prop in (('SimulatedBroker.get_account_total_equity', 'SimulatedBroker.get_portfolio_total_equity', 'total_equity'),
                              ('SimulatedBroker.get_account_total_market_value', 'SimulatedBroker.get_portfolio_total_market_value', 'total_market_value')):
         fn = ctx.fn(qn)
-        ps = summarise(ctx, qn, policy=no_inline)
+        ps = summarise(ctx, qn, policy=lambda a, b, d: default_policy(a, b, d) and not b.name.startswith('get_'))
         ok = len(ps) == 1 and ps[0].outcome == 'return'
         if not ctx.require(ok if ok else None, 'C01.S6', '%s has a single normal path' % qn, fn.site(), [p.describe() for p in ps][:4]):
             continue
